@@ -3,9 +3,10 @@ import asyncio
 
 
 def server_side_open(world, exclude=()):
-    """server-side transports that are neither closed nor closing"""
+    """server-side transports whose socket is still open: neither closed nor closing - or closing, but kept until a
+    peer that does not read takes what is buffered"""
     return [t for t in world.net.all_transports
-            if t.side == "server" and t.accepted and not t.closing and not t.closed and t not in exclude]
+            if t.side == "server" and t.accepted and t.held() and t not in exclude]
 
 
 def unaccepted(world):
